@@ -44,7 +44,8 @@ PRIOR = (gmutate.FS_CLASSES * 2 + ['m-digest', 'm-size', 'm-drop', 'm-ghost',
                                    'm-conflict', 'm-disjoint-wrong', 'm-compatible-dup',
                                    'm-chain', 'm-dup-ignore', 'm-unsupported',
                                    'm-dup-manifest-entry', 'm-dup-manifest-entry']
-         + gmutate.UNREG_CLASSES * 2 + ['m-entry-for-dir', 'm-misc-dup'])
+         + gmutate.UNREG_CLASSES * 2 + ['m-entry-for-dir', 'm-misc-dup',
+                                        'm-manifest-data-twin'])
 EDITS = ['content', 'size', 'delete', 'stray', 'stray', 'stray-manifest-name', 'retype']
 N = {'quick': 1500, 'thorough': 60000}
 PER_UNIT = 15
@@ -134,11 +135,28 @@ def pre_state(root):
                 if mmatch.normalised(full) and \
                         mmatch.check_file(root, full, e['size'], e['sums']) is not None:
                     stale.add(full)
-    return {'dup_paths': dup_paths, 'same_dir_chain': same_dir_chain, 'stale': stale}
+    return {'dup_paths': dup_paths, 'same_dir_chain': same_dir_chain, 'stale': stale,
+            'dup_manifests': sorted(p for p in dup_paths if p in mans)}
 
 
-def label(finding, pre, scope=''):
+def _logical(mp):
+    sfx = mtext.suffix_of(mp)
+    return mp[:-len(sfx) - 1] if sfx else mp
+
+
+def label(finding, pre, scope='', root=None):
     kind, path, det = finding
+    if kind == 'uncovered' and root is not None and pre.get('dup_manifests'):
+        # a Manifest that was listed twice in one Manifest file and lost its MANIFEST
+        # entry to the same-Manifest deduplication (D20) is no longer in use: the
+        # files it covered are uncovered
+        now, _ = update_post.reachable_manifests(root, 'Manifest')
+        in_use = {_logical(m) for m in now}
+        for dm in pre['dup_manifests']:
+            if _logical(dm) not in in_use and mtext.comp_prefix(
+                    os.path.dirname(path), os.path.dirname(dm)) \
+                    and mtext.comp_prefix(dm, scope):
+                return 'same-manifest-duplicate:manifest-unreferenced'
     if kind == 'manifest-entry-stale' and scope and path in pre['stale'] \
             and not mtext.comp_prefix(os.path.dirname(path), scope):
         return 'stale-chain-above-subdir-scope'
@@ -205,13 +223,15 @@ def judge_round(ctx, root, case, rnd, opt):
         detail['findings'] = findings[:8]
         done = set()
         for f in findings:
-            lb = label(f, pre, opt['scope'])
+            lb = label(f, pre, opt['scope'], root)
             if lb in done:
                 continue
             done.add(lb)
             ctx.violation('post:' + lb, 'after update+save completed without error: '
                           '%s %r %r' % f, case, detail)
-        return True
+        # Manifests that are wrong now taint the later rounds of this history (their
+        # consequences would be reported again under other names)
+        return False
     fk, fv = fresh_verify(root, opt['scope'])
     ctx.count('fresh_verifications')
     res = mmatch.match(root, 'Manifest', opt['scope'])
